@@ -101,3 +101,14 @@ Theorem C17_early_end_reported_at_last_byte : forall bs, ViableProofs.viable bs 
   Scanner.check false bs = Scanner.VErr Scanner.code_unexpected_eof (N.of_nat (length bs - 1)).
 Proof. exact ViableProofs.viable_incomplete_reported_at_end. Qed.
 Print Assumptions C17_early_end_reported_at_last_byte.
+
+(* Property C17 (schema scanning) — a DocumentError of the schema scanner points inside the text:
+   at the byte being read, or at the last byte when the text ends early.  Proof in
+   SchemaScan/SchemaProofs.v. *)
+From JS Require SchemaScan.SchemaScanner SchemaScan.SchemaProofs.
+
+Theorem C17_schema_error_position_inside : forall (lc : bool) (bs : Wire.bytes) c p,
+  snd (SchemaScanner.scan lc bs) = SchemaScanner.Err c p -> bs <> [] ->
+  (N.to_nat p < List.length bs)%nat.
+Proof. exact SchemaProofs.schema_error_position_inside. Qed.
+Print Assumptions C17_schema_error_position_inside.
